@@ -125,8 +125,8 @@ PROPS = {
     'C19': {
         'explanation': 'Clause decided: wire-format well-formedness read from the derived Serialize/Deserialize MIR bodies: every state/op type has '
                        'both impls (SER-BOTH), every field is written and required (SER-ALLFIELDS), no field is a JSON map with a structured key '
-                       '(SER-MAPKEY: fires on Orswot.deferred and Map.deferred = known findings), the pair-list helper is symmetric (SER-WITH-SYM).',
-        'decides': 'SER-BOTH, SER-ALLFIELDS, SER-MAPKEY, SER-WITH-SYM',
+                       '(SER-MAPKEY: fires on Orswot.deferred and Map.deferred = known findings), the pair-list helper is symmetric (SER-WITH-SYM), op enums are externally tagged (SER-ENUM-EXT).',
+        'decides': 'SER-BOTH, SER-ALLFIELDS, SER-MAPKEY, SER-WITH-SYM, SER-ENUM-EXT',
         'not_decided': 'value equality and behavioural identity after a round-trip (runtime quantities)',
     },
     'C20': {
